@@ -32,6 +32,8 @@ impl CommodityChannelIndex {
 		r is Ok ==> r->Ok_0.inv() && r->Ok_0.cfg == self,
 		// documented seeds: CCI(period) from the source price; previous value 0, no previous signal
 		r is Ok ==> r->Ok_0.last_cci@ == 0real && r->Ok_0.last_signal == 0 && r->Ok_0.cci.0.0.window.view().len() == self.period,
+		// C08: the constant state for the candle's source price (cci_ind_const_step)
+		r is Ok ==> r->Ok_0.const_state(src_val(candle, self.source)),
 //@replace Ok(Self::Instance { ==> Ok(CommodityChannelIndexInstance {
 //@end
 }
@@ -65,6 +67,38 @@ impl CommodityChannelIndexInstance {
 //@hint result
 	proof { assert(cci_ind_step(old(self), value, self, r.vals()[0], r.sigs()[0], c__)); }
 //@end
+}
+
+// ---- C08 at indicator level: CommodityChannelIndex on a repeated candle: deviation 0, CCI 0, no signal
+pub open spec fn all_eq(v: Seq<R>, s: real) -> bool { forall|i: int| 0 <= i < v.len() ==> (#[trigger] v[i])@ == s }
+pub proof fn lemma_abs_dev_all_eq(v: Seq<R>, s: real)
+	requires all_eq(v, s)
+	ensures abs_dev_sum(v, s) == 0real
+	decreases v.len()
+{
+	if v.len() > 0 {
+		assert forall|i: int| 0 <= i < v.drop_last().len() implies (#[trigger] v.drop_last()[i])@ == s by { assert(v.drop_last()[i] == v[i]); }
+		lemma_abs_dev_all_eq(v.drop_last(), s);
+		assert(v.last()@ == s) by { assert(v.last() == v[v.len() - 1]); }
+	}
+}
+impl CommodityChannelIndexInstance {
+	pub open spec fn const_state(&self, s: real) -> bool {
+		self.inv() && all_eq(self.cci.0.0.window.view(), s) && self.last_cci@ == 0real && self.last_signal == 0 && self.cfg.zone@ >= 0real
+	}
+}
+pub proof fn cci_ind_const_step(pre: &CommodityChannelIndexInstance, src: ValueType, post: &CommodityChannelIndexInstance, value: ValueType, sig: Action, c: ValueType)
+	requires pre.const_state(src@), post.inv(), post.cfg == pre.cfg, cci_ind_step(pre, src, post, value, sig, c)
+	ensures value@ == 0real, sig is None, post.const_state(src@)
+{
+	let v = post.cci.0.0.window.view();
+	assert forall|i: int| 0 <= i < v.len() implies (#[trigger] v[i])@ == src@ by { if i < v.len() - 1 { assert(v[i] == pre.cci.0.0.window.view()[i + 1]); } }
+	lemma_sum_all_eq(v, src@);
+	let n = v.len() as real;
+	assert((n * src@) / n == src@) by(nonlinear_arith) requires n >= 1real;
+	lemma_abs_dev_all_eq(v, src@);
+	assert(0real / n == 0real) by(nonlinear_arith) requires n >= 1real;
+	assert(0real * (1real / 1.5real) == 0real) by(nonlinear_arith);
 }
 
 // ================================================================== HullMovingAverage
